@@ -199,6 +199,7 @@ fn reader_side(ctx: &Ctx, rng: &mut Rng) {
         let fraction = *rng.pick(&[30u32, 70, 100]);
         let nmsg = 1 + rng.below(if ctx.quick() { 12 } else { 50 });
         let mut trace: Vec<serde_json::Value> = Vec::new();
+        let mut undecodable_seen = false;
         for m in 0..nmsg {
             ctx.eval(1);
             // a message using a few atoms of the pool (so that entries get reused across messages)
@@ -234,6 +235,36 @@ fn reader_side(ctx: &Ctx, rng: &mut Rng) {
             if with_payload {
                 collect_atoms(&payload_v, &mut all_atoms);
             }
+            // now and then the sender's previous message had a faultless header (whose entries the sender now relies
+            // on) but terms the receiver cannot decode: cut short, nested beyond the limit, or with an unknown tag
+            if rng.chance(1, 6) {
+                let lost_atoms: Vec<String> = (0..1 + rng.below(5)).map(|_| if wide { rng.pick(&wide_pool).clone() } else { rng.pick(&pool).clone() }).collect();
+                let lost_v = Val::Tuple(vec![Val::int(2), Val::atom(""), term_with_atoms(rng, &lost_atoms)]);
+                let mut la = Vec::new();
+                collect_atoms(&lost_v, &mut la);
+                let lrefs = plan_message(rng, &mut sender, &la, fraction.max(70), slot_space);
+                let mut lb = write_message(&lrefs, &[&lost_v]);
+                let how = rng.below(3);
+                match how {
+                    0 => {
+                        let n = lb.len();
+                        lb.truncate(n - 1);
+                    }
+                    1 => {
+                        lb.push(131);
+                        for _ in 0..300 {
+                            lb.extend_from_slice(&[104, 1]);
+                        }
+                        lb.extend_from_slice(&[97, 7]);
+                    }
+                    _ => lb.extend_from_slice(&[131, 255, 1]),
+                }
+                let r = guarded(|| erltf::decode_with_atom_cache(&lb, &mut cache));
+                let how_name = ["cut-short", "too-deep", "unknown-tag"][how];
+                undecodable_seen = true;
+                ctx.class(&format!("reader/undecodable-terms-behind-a-good-header/{}", how_name));
+                trace.push(json!({"undecodable": how_name, "refs": lrefs.iter().map(|r| format!("{}{}:{}={}", if r.new_entry { "+" } else { "" }, r.segment, r.internal, r.atom.chars().take(12).collect::<String>())).collect::<Vec<_>>(), "result": match &r { Ok(Ok(_)) => "ok".to_string(), Ok(Err(e)) => format!("error: {}", e).chars().take(80).collect(), Err(p) => format!("panic: {}", p) }}));
+            }
             let refs = plan_message(rng, &mut sender, &all_atoms, fraction, slot_space);
             let bytes = if with_payload { write_message(&refs, &[&control_v, &payload_v]) } else { write_message(&refs, &[&control_v]) };
             // self-check of the model: the independent reader must agree with the independent writer
@@ -257,7 +288,9 @@ fn reader_side(ctx: &Ctx, rng: &mut Rng) {
                 _ => false,
             };
             if !ok {
-                let cause = if refs.is_empty() {
+                let cause = if undecodable_seen {
+                    "after-a-message-with-a-good-header-and-undecodable-terms"
+                } else if refs.is_empty() {
                     "no-refs"
                 } else if long && refs.len() % 2 == 1 {
                     "long-atoms-flag:odd-count"
@@ -310,7 +343,7 @@ fn model_selfcheck(ctx: &Ctx, rng: &mut Rng) -> bool {
 }
 
 pub fn run(ctx: &Ctx) {
-    ctx.rule("writer side: control/payload pairs with 0..300 distinct atoms (even/odd counts, atom lengths 0..255, 256..1020, >65535; atoms only inside pids/funs) encoded by the library and read by an independent header reader and by the library's own decoder; reader side: histories of 1..50 messages from an atom-cache sender model (with and without a payload term; a few atoms or 60..255 references with mixed new / cached entries in all segments; new entries, re-use of entries of earlier messages, slot overwrites, all 8 segments, header position != slot, shuffled header order) decoded with one persistent AtomCache; evaluations = messages judged; distinct = distinct (side, reference count, reuse, position!=slot, segment use, long-atom parity) combinations");
+    ctx.rule("writer side: control/payload pairs with 0..300 distinct atoms (even/odd counts, atom lengths 0..255, 256..1020, >65535; atoms only inside pids/funs) encoded by the library and read by an independent header reader and by the library's own decoder; reader side: histories of 1..50 messages from an atom-cache sender model (with and without a payload term; a few atoms or 60..255 references with mixed new / cached entries in all segments; new entries, re-use of entries of earlier messages, slot overwrites, all 8 segments, header position != slot, shuffled header order; messages with a faultless header and undecodable terms in between) decoded with one persistent AtomCache; evaluations = messages judged; distinct = distinct (side, reference count, reuse, position!=slot, segment use, long-atom parity) combinations");
     ctx.assume("header layout per erl_dist_protocol: flags nibble i for reference i (bit3 new entry, bits0-2 segment), nibble n bit0 = LongAtoms; ATOM_CACHE_REF k = k-th reference of this header; cache slot = segment*256 + internal index");
     let mut rng = Rng::derive(ctx.seed, 14, 1);
     if !model_selfcheck(ctx, &mut rng) {
